@@ -590,9 +590,29 @@ def b64_variants(rng, b):
     return out
 
 
+def probe_unqualified_qname_under_default_namespace():
+    """Known finding: a QName without namespace is written as a bare local name even when the prefix map has a
+    default namespace, where that spelling denotes another name. Counterfactual: without the default namespace
+    the same value round-trips."""
+    c = conv()
+    m = {None: "urn:x"}
+    s = c.serialize(QName("foo"), ns_map=dict(m))
+    back = c.deserialize(s, [QName], ns_map=dict(m))
+    s2 = c.serialize(QName("foo"), ns_map={"p": "urn:x"})
+    back2 = c.deserialize(s2, [QName], ns_map={"p": "urn:x"})
+    return back.text != "foo" and back2.text == "foo"
+
+
 def run_shard(ctx):
     install_hooks(ctx)
     rng = ctx.rng
+    if ctx.shard == 0:
+        ctx.evals()
+        try:
+            if probe_unqualified_qname_under_default_namespace():
+                ctx.known_finding("C05/unqualified-qname-under-default-namespace")
+        except Exception as e:  # noqa: BLE001
+            ctx.inconc(f"probe failed to run: {type(e).__name__}: {e}")
     n = ctx.per_shard(ctx.pick(600000, 12000000))
     min_d = MIN_DISTINCT[ctx.tier] // ctx.nshards + 1
     P = pytypes()
